@@ -42,7 +42,7 @@ def run(ctx):
 
 def run_(ctx, model):
     rng = gen.rng_for(ctx.seed, 'c17')
-    n_files = 10 if ctx.quick else 120
+    n_files = ctx.n(10, 120)
     kinds = ('default', 'zslice', 'general', '2d', 'irregular', 'default', 'b0is4')
     for fnum, fi in enumerate(files.read_files(ctx, rng, n_files, kinds=kinds, max_voxels=6_000)):
         desc = {'n': fi.n, 'bs': fi.lay.bs, 'q': fi.lay.q, 'is2d': fi.is2d, 'irregular': fi.mask is not None}
